@@ -43,5 +43,6 @@ theorem add_uses_translated_sketch (s : CmsHeap.St) (x : Nat) (cols : List Nat) 
 /-- `CMSHeap::clear` clears the sketch with the translated `clear` -/
 theorem clear_translated (s : CmsHeap.St) (h : s.cms.w * s.cms.d < 2 ^ 64) :
     cms_clear s.cms.w s.cms.d s.cms.table.toList = Flow.cont (CmsHeap.clear s).cms.table.toList := cms_clear_eq s.cms h
+theorem cms_is_empty_translated (s : Cms.St) : cms_is_empty s.table.toList = Cms.isEmpty s := cms_is_empty_eq s
 
 end Pds.Tie.C10
